@@ -516,7 +516,8 @@ def shards(tier):
     if tier == "thorough":
         for c in ["diag_comms", "dops", "tables", "gnrs", "state_charts", "unit_groups"]:
             for t0 in hx.LAYER_TYPES:
-                out.append(("enum", 3, c, t0))
+                for t1 in hx.LAYER_TYPES:
+                    out.append(("enum", 3, c, [t0, t1]))
     return out
 
 
@@ -525,8 +526,8 @@ def run_shard(spec, seed, tier):
     res = core.ShardResult()
     kf = known.load(PROPERTY)
 
-    def body(hier, sample=True):
-        fails, cls, nontrivial = evaluate(hier)
+    def body(hier, sample=True, sub_check=True):
+        fails, cls, nontrivial = evaluate(hier, sub_check=sub_check)
         res.note({"hier": hier}, nontrivial, cls, sample=sample)
         new = []
         for f in fails:
@@ -539,11 +540,13 @@ def run_shard(spec, seed, tier):
 
     if spec[0] == "enum":
         _, k, cat, t0 = spec
-        filt = None if t0 is None else (lambda ts: ts[0] == t0)
+        filt = None if t0 is None else (lambda ts: list(ts[:2]) == list(t0))
         n = 0
         for h in enum_hiers(k, cat, filt):
             n += 1
-            new = body(h, sample=(n % 1009 == 1))
+            # the separate load of a parent without its children is done for k=2 only (cost); for k=3 the
+            # parent's view inside the full hierarchy is still compared with the children-independent model
+            new = body(h, sample=(n % 1009 == 1), sub_check=(k <= 2))
             if new and len(res.failures) < 20:
                 res.failures.extend(new[:2])
         res.stages["enumeration"] = n
